@@ -57,14 +57,15 @@ def check_once(contract, case, args: dict, fn=None):
     fn = fn or real_function(contract)
     entry = copy.deepcopy(args)
     env0 = _env(contract, ex, dict(entry))
-    try:
-        for r in list(contract.requires) + list(case.requires):
-            if not eval(r, env0):
-                return "skip", None
-    except Exception as e:
-        return "skip", f"requires raised {type(e).__name__}"
+    if contract.native_post is None:
+        try:
+            for r in list(contract.requires) + list(case.requires):
+                if not eval(r, env0):
+                    return "skip", None
+        except Exception as e:
+            return "skip", f"requires raised {type(e).__name__}"
     lets = {}
-    for name, expr in case.lets.items():
+    for name, expr in (case.lets.items() if contract.native_post is None else ()):
         lets[name] = eval(expr, env0)
         env0[name] = lets[name]
     call_args = copy.deepcopy(args)
@@ -88,6 +89,19 @@ def check_once(contract, case, args: dict, fn=None):
     raises = case.raises if case.raises is not None else contract.raises
     may = case.may_raise if case.may_raise is not None else contract.may_raise
     info = dict(args=_jsonable(entry), args_py=repr(entry), outcome=outcome, value=_jsonable(value if outcome == "return" else repr(value)))
+    if contract.native_post is not None:
+        # contracts over abstract sorts: the executable form of the same clauses is a Python callable
+        try:
+            msg = contract.native_post(case.name, entry, call_args, outcome, value)
+        except Exception as e:
+            info.update(failed="contract-eval-error", clause="".join(traceback.format_exception_only(type(e), e)).strip())
+            return "error", info
+        if msg == "skip":
+            return "skip", None
+        if msg:
+            info.update(failed="native-post", clause=msg)
+            return "violation", info
+        return "ok", info
     try:
         if outcome == "return":
             env["result"] = value
